@@ -71,6 +71,12 @@ def flat_operands(op, seed, nrandom, full_pairs=True):
         else:
             # diagonal + seeded sample of the pair table
             out = [(a, a) for a in pa] + [(ch.pick(pa), ch.pick(pb)) for _ in range(4 * len(pa))]
+    _, _, oname = op.partition('.')
+    if oname.startswith('convert_i'):
+        # rounding decisions of int->float conversions (tie / sticky bit at every position of the leading bit)
+        out += [(v,) for v in pools.convert_patterns(32 if 'i32' in oname else 64, 24 if op.startswith('f32') else 53)]
+    elif oname == 'demote_f64':
+        out += [(v,) for v in pools.demote_patterns()]
     for _ in range(nrandom):
         out.append(tuple(pools.draw_value(ch, p) for p in ps))
     return out
